@@ -1424,6 +1424,75 @@ def rule_r11(chk, prog, cg):
     chk.floor('C04.R11', 'call sites of mixed-return functions', n, 3)
 
 
+# -------------------------------------------------------------------- R13
+def rule_r13(chk, prog):
+    chk.rule('C04.R13', 'state the forked workers read is set up before the '
+             'pool is created: a module global that a pool\'s worker '
+             'function reads and the pool-creating function assigns is '
+             'assigned on every path before the pool exists')
+    n = 0
+    for modname in ('strategy_ddmin', 'strategy_hierarchical'):
+        m = prog.mod(modname)
+        for q, f in m.funcs.items():
+            pools = [c for c in calls_in(f)
+                     if (call_name(c) or '').endswith('Pool')
+                     and 'ThreadPool' not in (call_name(c) or '')]
+            if not pools:
+                continue
+            gl = set()
+            for x in walk_no_nested(f):
+                if isinstance(x, ast.Global):
+                    gl.update(x.names)
+            if not gl:
+                continue
+            # worker functions handed to the pool
+            workers = set()
+            for c in calls_in(f):
+                if isinstance(c.func, ast.Attribute) and c.func.attr in (
+                        'imap', 'imap_unordered', 'map', 'map_async',
+                        'apply_async', 'starmap') and c.args:
+                    w = c.args[0]
+                    if isinstance(w, ast.Name) and w.id in m.funcs:
+                        workers.add(w.id)
+            read = set()
+            for w in workers:
+                for x in ast.walk(m.funcs[w]):
+                    if isinstance(x, ast.Name) and isinstance(
+                            x.ctx, ast.Load) and x.id in gl:
+                        read.add(x.id)
+            if not read:
+                continue
+            cfg = cfg_of(f)
+            for g in sorted(read):
+                asg = [st for st in walk_no_nested(f)
+                       if isinstance(st, ast.Assign) and any(
+                           isinstance(t, ast.Name) and t.id == g
+                           for t in st.targets)]
+                if not asg:
+                    continue
+                marks = {cfg.node_of[id(st)]: 'set' for st in asg
+                         if id(st) in cfg.node_of}
+                IN, _ = cfg.dominators_facts(marks)
+                for pc in pools:
+                    n += 1
+                    pn = expr_owner_node(cfg, pc)
+                    ok = 'set' in (IN.get(pn) or ())
+                    chk.check('C04.R13', f'{modname}.{q}',
+                              f'{g} assigned before {unparse(pc)[:40]}', ok,
+                              f'the workers of this pool read the module '
+                              f'global "{g}" ({sorted(workers)}), but it is '
+                              'assigned only after the pool has been '
+                              'created: a forked worker keeps whatever the '
+                              'global held at fork time (None, or the '
+                              'proxy of a manager that has been shut down '
+                              'since), its first use raises in the worker '
+                              'and the exception comes back through the '
+                              'result iterator into the main process',
+                              loc=m.loc(pc), nontrivial=True)
+    chk.floor('C04.R13', 'worker-read globals set by a pool-creating '
+              'function', n, 1)
+
+
 def run(tier):
     prog = Program()
     chk = Check(
@@ -1464,6 +1533,7 @@ def run(tier):
     chk.guard(rule_r9, chk, prog)
     chk.guard(rule_r10, chk, prog, cg)
     chk.guard(rule_r11, chk, prog, cg)
+    chk.guard(rule_r13, chk, prog)
     # an interrupt must reach main()'s handler (status 1): shared with C06.R3
     from . import c06
     sub = Check('C06', 'other', tier, [], [])
